@@ -177,3 +177,9 @@ invert = Fn(U + 'invert_matrix', ret='r', level='L1', valid=SQMX, panics={1: 'RE
 UNITS.append(Unit('C01_invert', ('C01', 'C11'), [invert], use=[c01.is_square, solve_sys, diag_m] + core.core_stubs(), types=core.TYPES, type_spec=core.TYPE_SPEC,
                   spec=SPEC + SYS_SPEC + INV_SPEC, preludes=PRE, broadcast=BC, level='L1', rlimit=100,
                   notes='invert_matrix: column c of the result solves A x = e_c (solve_sys applied to the identity built by diag_matrix); non-square input rejected'))
+
+# ---------------------------------------------------------------- Matrix::solve(&Vector): the LU route at Matrix level
+UNITS.append(Unit('C01_matrix_solve', ('C01', 'C11'), [t.mlu_solve, t.msolve], use=core.core_stubs() + [rec.mlu_full()], types=core.TYPES, type_spec=core.TYPE_SPEC,
+                  spec=t.SPEC + t.LUS_SPEC + c01.LU_ONLY_SPEC + rec.REC_SPEC, nra=t.NRA, preludes=PRE, broadcast=BC, level='L1', rlimit=100,
+                  notes='Matrix-level lu_solve (Vector right-hand side) satisfies the same equations as the slice-level routine; Matrix::solve(&Vector) is lu + lu_solve: '
+                        'P A = L U, (unit lower) y = P b, U x = y; non-square / mismatched systems rejected'))
